@@ -398,7 +398,8 @@ impl Ctx {
     /// property id is prefixed here). At most 5 witnesses per signature are logged.
     pub fn violation(&mut self, sig: &str, detail: Value) {
         self.violations += 1;
-        let full = format!("{}|{}", self.prop, sig);
+        // signatures are single tokens (they are matched literally against known_findings.txt)
+        let full = format!("{}|{}", self.prop, sig).replace(' ', "_");
         let n = self.viol_per_sig.entry(full.clone()).or_insert(0);
         *n += 1;
         if *n <= 5 || self.replay_mode {
